@@ -60,9 +60,10 @@ impl PyGenerator {
     }
 
     fn set_opcode_range(&mut self, min: usize, max: usize) {
-        let version = self.inner.state.version;
-        let new_gen = Generator::new(version).with_opcode_range(min, max);
-        self.inner = new_gen;
+        // change the two bounds in place: rebuilding the generator would silently drop the
+        // seed (and any other setting) the caller configured
+        self.inner.min_opcodes = min;
+        self.inner.max_opcodes = max;
     }
 
     fn reset(&mut self) {
